@@ -10,6 +10,10 @@ CONSTANTS
   MaxQ = 2
   MaxId = 1
   KaVals = {}
+  XQs = {}
+  XfrIds = {}
+  XfrAll = FALSE
+  QVars = {101, 201, 301, 401}
   EndKinds = {"eof"}
   Frames <- MCFrames
 SPECIFICATION Spec
